@@ -6,7 +6,7 @@ From FT.lib Require Import Num Arr ArrLemmas Lower NumArr.
 From FT.gen Require Import Common Fteik2d Fteik3d.
 From Coq Require Import Reals.
 From FT.proofs Require Import Sweep2dProofs Sweep3dProofs Solve2dProofs Solve3dProofs.
-From FT.proofs Require OperatorsR NonNeg2d Pos2d NonNeg3d Pos3d GridPath.
+From FT.proofs Require OperatorsR NonNeg2d Pos2d NonNeg3d Pos3d GridPath SourceCell ApiGenEq.
 Import ListNotations.
 Open Scope Z_scope.
 
@@ -491,6 +491,970 @@ Theorem C03_solve3d_zero_only_at_source_refuted :
           (0%R = (0 / 1)%R /\ 1%R = (4 / 4)%R /\ 0%R = (0 / 1)%R) /\ get 0%R tt [0; 1; 0] = 0%R).
 Proof. exact @Pos3d.fteik3d_zero_only_at_source_refuted. Qed.
 
+(* every numeric instance: the reported vzero is slow[min(trunc(zsrc/dz), nz-1), min(trunc(xsrc/dx), nx-1)] - the code's own source-cell expression - whenever the 2D solver returns *)
+Theorem C03_vzero_is_source_cell_slowness_2d :
+  forall (T : Type) (H : Num T) (slow : arr T) (dz dx zsrc xsrc : T) (nsweep : Z) (grad : bool)
+         (tt ttgrad : arr T) (vzero : T),
+       fteik2d slow dz dx zsrc xsrc nsweep grad = Ok (tt, ttgrad, vzero) ->
+       let nz := dim slow 0 in
+       let nx := dim slow 1 in
+       let zsi := Z.min (ntrunc (ndiv zsrc dz)) (nz - 1) in
+       let xsi := Z.min (ntrunc (ndiv xsrc dx)) (nx - 1) in vzero = get (nofZ 0) slow [zsi; xsi].
+Proof. exact @SourceCell.fteik2d_vzero_is_source_cell. Qed.
+
+(* and does not depend on nsweep or on the gradient flag *)
+Theorem C03_vzero_independent_of_options_2d :
+  forall (T : Type) (H : Num T) (slow : arr T) (dz dx zsrc xsrc : T) (n1 : Z) (g1 : bool) 
+         (n2 : Z) (g2 : bool) (tt1 G1 : arr T) (v1 : T) (tt2 G2 : arr T) (v2 : T),
+       fteik2d slow dz dx zsrc xsrc n1 g1 = Ok (tt1, G1, v1) ->
+       fteik2d slow dz dx zsrc xsrc n2 g2 = Ok (tt2, G2, v2) -> v1 = v2.
+Proof. exact @SourceCell.fteik2d_vzero_indep. Qed.
+
+(* 3D *)
+Theorem C03_vzero_is_source_cell_slowness_3d :
+  forall (T : Type) (H : Num T) (slow : arr T) (dz dx dy zsrc xsrc ysrc : T) (nsweep : Z) 
+         (grad : bool) (tt ttgrad : arr T) (vzero : T),
+       fteik3d slow dz dx dy zsrc xsrc ysrc nsweep grad = Ok (tt, ttgrad, vzero) ->
+       let nz := dim slow 0 in
+       let nx := dim slow 1 in
+       let ny := dim slow 2 in
+       let zsi := Z.min (ntrunc (ndiv zsrc dz)) (nz - 1) in
+       let xsi := Z.min (ntrunc (ndiv xsrc dx)) (nx - 1) in
+       let ysi := Z.min (ntrunc (ndiv ysrc dy)) (ny - 1) in vzero = get (nofZ 0) slow [zsi; xsi; ysi].
+Proof. exact @SourceCell.fteik3d_vzero_is_source_cell. Qed.
+
+(* exact arithmetic: the cell indices are in range and the CLOSED cell contains the source; on the far boundary it is the last cell; a source in [k d, (k+1) d) gets exactly cell k *)
+Theorem C03_source_cell_contains_source_2d :
+  forall (slow : arr R) (dz dx zsrc xsrc : R) (nsweep : Z) (grad : bool) (nz nx : Z) (tt ttgrad : arr R)
+         (vzero : R),
+       wf slow ->
+       shape slow = [nz; nx] ->
+       1 <= nz ->
+       1 <= nx ->
+       (0 < dz)%R ->
+       (0 < dx)%R ->
+       fteik2d slow dz dx zsrc xsrc nsweep grad = Ok (tt, ttgrad, vzero) ->
+       let zsi := Z.min (Rtrunc (zsrc / dz)) (nz - 1) in
+       let xsi := Z.min (Rtrunc (xsrc / dx)) (nx - 1) in
+       vzero = get 0%R slow [zsi; xsi] /\
+       inb slow [zsi; xsi] = true /\
+       In vzero (dat slow) /\
+       0 <= zsi < nz /\
+       0 <= xsi < nx /\
+       SourceCell.in_closed_cell zsrc dz zsi /\
+       SourceCell.in_closed_cell xsrc dx xsi /\
+       (zsrc = (dz * IZR nz)%R -> zsi = nz - 1) /\
+       (xsrc = (dx * IZR nx)%R -> xsi = nx - 1) /\
+       (forall k : Z, k < nz -> (IZR k * dz <= zsrc < (IZR k + 1) * dz)%R -> zsi = k) /\
+       (forall k : Z, k < nx -> (IZR k * dx <= xsrc < (IZR k + 1) * dx)%R -> xsi = k) /\
+       (forall k : Z, (IZR k * dz < zsrc < (IZR k + 1) * dz)%R -> zsi = k) /\
+       (forall k : Z, (IZR k * dx < xsrc < (IZR k + 1) * dx)%R -> xsi = k).
+Proof. exact @SourceCell.fteik2d_source_cell_R. Qed.
+
+(* 3D *)
+Theorem C03_source_cell_contains_source_3d :
+  forall (slow : arr R) (dz dx dy zsrc xsrc ysrc : R) (nsweep : Z) (grad : bool) (nz nx ny : Z)
+         (tt ttgrad : arr R) (vzero : R),
+       wf slow ->
+       shape slow = [nz; nx; ny] ->
+       1 <= nz ->
+       1 <= nx ->
+       1 <= ny ->
+       (0 < dz)%R ->
+       (0 < dx)%R ->
+       (0 < dy)%R ->
+       fteik3d slow dz dx dy zsrc xsrc ysrc nsweep grad = Ok (tt, ttgrad, vzero) ->
+       let zsi := Z.min (Rtrunc (zsrc / dz)) (nz - 1) in
+       let xsi := Z.min (Rtrunc (xsrc / dx)) (nx - 1) in
+       let ysi := Z.min (Rtrunc (ysrc / dy)) (ny - 1) in
+       vzero = get 0%R slow [zsi; xsi; ysi] /\
+       inb slow [zsi; xsi; ysi] = true /\
+       In vzero (dat slow) /\
+       0 <= zsi < nz /\
+       0 <= xsi < nx /\
+       0 <= ysi < ny /\
+       SourceCell.in_closed_cell zsrc dz zsi /\
+       SourceCell.in_closed_cell xsrc dx xsi /\
+       SourceCell.in_closed_cell ysrc dy ysi /\
+       (zsrc = (dz * IZR nz)%R -> zsi = nz - 1) /\
+       (xsrc = (dx * IZR nx)%R -> xsi = nx - 1) /\
+       (ysrc = (dy * IZR ny)%R -> ysi = ny - 1) /\
+       (forall k : Z, k < nz -> (IZR k * dz <= zsrc < (IZR k + 1) * dz)%R -> zsi = k) /\
+       (forall k : Z, k < nx -> (IZR k * dx <= xsrc < (IZR k + 1) * dx)%R -> xsi = k) /\
+       (forall k : Z, k < ny -> (IZR k * dy <= ysrc < (IZR k + 1) * dy)%R -> ysi = k) /\
+       (forall k : Z, (IZR k * dz < zsrc < (IZR k + 1) * dz)%R -> zsi = k) /\
+       (forall k : Z, (IZR k * dx < xsrc < (IZR k + 1) * dx)%R -> xsi = k) /\
+       (forall k : Z, (IZR k * dy < ysrc < (IZR k + 1) * dy)%R -> ysi = k).
+Proof. exact @SourceCell.fteik3d_source_cell_R. Qed.
+
+(* binary64 (1..2^50 cells): indices in range for every float passing the domain test; membership up to one rounding error per side: k d <= z (1+2^-53) and z <= (k+1) d (1+2^-53) *)
+Theorem C03_source_cell_contains_source_binary64_2d :
+  forall (slow : arr float) (dz dx zsrc xsrc : float) (nsweep : Z) (grad : bool) (nz nx : Z)
+         (tt ttgrad : arr float) (vzero : float),
+       wf slow ->
+       shape slow = [nz; nx] ->
+       1 <= nz <= 2 ^ 50 ->
+       1 <= nx <= 2 ^ 50 ->
+       (0 <? dz)%float = true ->
+       (0 <? dx)%float = true ->
+       fteik2d slow dz dx zsrc xsrc nsweep grad = Ok (tt, ttgrad, vzero) ->
+       let zsi := Z.min (f_trunc (zsrc / dz)) (nz - 1) in
+       let xsi := Z.min (f_trunc (xsrc / dx)) (nx - 1) in
+       vzero = get 0%float slow [zsi; xsi] /\
+       inb slow [zsi; xsi] = true /\
+       In vzero (dat slow) /\
+       0 <= zsi < nz /\
+       0 <= xsi < nx /\
+       (SourceCell.finite zsrc ->
+        SourceCell.finite dz ->
+        SourceCell.in_cell_approx zsrc dz zsi /\
+        (f_trunc (zsrc / dz) < nz -> (SourceCell.Rval zsrc < (IZR zsi + 1) * SourceCell.Rval dz)%R)) /\
+       (SourceCell.finite xsrc ->
+        SourceCell.finite dx ->
+        SourceCell.in_cell_approx xsrc dx xsi /\
+        (f_trunc (xsrc / dx) < nx -> (SourceCell.Rval xsrc < (IZR xsi + 1) * SourceCell.Rval dx)%R)).
+Proof. exact @SourceCell.fteik2d_source_cell_F. Qed.
+
+(* EXACT membership is false on binary64: d = 1+2^-52, z = 3+2^-51 lies strictly inside cell 2 but fl(z/d) = 3 and the code takes cell 3 (a source within one rounding error of a grid line is attributed to either adjoining cell; the implementation agrees with the model on this input) *)
+Theorem C03_source_cell_exact_membership_refuted_binary64 :
+  (f_ofZ 0 <=? SourceCell.wz)%float = true /\
+       (f_ofZ 0 <? SourceCell.wd)%float = true /\
+       (SourceCell.wz <=? SourceCell.wd * f_ofZ 4)%float = true /\
+       SourceCell.finite SourceCell.wz /\
+       SourceCell.finite SourceCell.wd /\
+       SourceCell.cell_index SourceCell.wz SourceCell.wd 4 = 3 /\
+       (2 * SourceCell.Rval SourceCell.wd < SourceCell.Rval SourceCell.wz < 3 * SourceCell.Rval SourceCell.wd)%R /\
+       ~
+       (IZR (SourceCell.cell_index SourceCell.wz SourceCell.wd 4) * SourceCell.Rval SourceCell.wd <=
+        SourceCell.Rval SourceCell.wz)%R.
+Proof. exact @SourceCell.source_cell_exact_F_refuted. Qed.
+
+(* API layer, extracted from _solver.py on every run (gen/ApiGen.v): which piece of the kernel's result and which attributes (gridsize, origin, the given source, vzero) are handed to the returned TraveltimeGrid2D *)
+Theorem C03_solve_result_wiring_2d :
+  ApiGen.solve_2d_targets =
+       [String.String (Ascii.Ascii false false true false true true true false)
+          (String.String (Ascii.Ascii false false true false true true true false) String.EmptyString);
+        String.String (Ascii.Ascii false false true false true true true false)
+          (String.String (Ascii.Ascii false false true false true true true false)
+             (String.String (Ascii.Ascii true true true false false true true false)
+                (String.String (Ascii.Ascii false true false false true true true false)
+                   (String.String (Ascii.Ascii true false false false false true true false)
+                      (String.String (Ascii.Ascii false false true false false true true false) String.EmptyString)))));
+        String.String (Ascii.Ascii false true true false true true true false)
+          (String.String (Ascii.Ascii false true false true true true true false)
+             (String.String (Ascii.Ascii true false true false false true true false)
+                (String.String (Ascii.Ascii false true false false true true true false)
+                   (String.String (Ascii.Ascii true true true true false true true false) String.EmptyString))))] /\
+       ApiGen.solve_2d_result_ctor =
+       (String.String (Ascii.Ascii false false true false true false true false)
+          (String.String (Ascii.Ascii false true false false true true true false)
+             (String.String (Ascii.Ascii true false false false false true true false)
+                (String.String (Ascii.Ascii false true true false true true true false)
+                   (String.String (Ascii.Ascii true false true false false true true false)
+                      (String.String (Ascii.Ascii false false true true false true true false)
+                         (String.String (Ascii.Ascii false false true false true true true false)
+                            (String.String (Ascii.Ascii true false false true false true true false)
+                               (String.String (Ascii.Ascii true false true true false true true false)
+                                  (String.String (Ascii.Ascii true false true false false true true false)
+                                     (String.String (Ascii.Ascii true true true false false false true false)
+                                        (String.String (Ascii.Ascii false true false false true true true false)
+                                           (String.String (Ascii.Ascii true false false true false true true false)
+                                              (String.String (Ascii.Ascii false false true false false true true false)
+                                                 (String.String
+                                                    (Ascii.Ascii false true false false true true false false)
+                                                    (String.String
+                                                       (Ascii.Ascii false false true false false false true false)
+                                                       String.EmptyString))))))))))))))),
+        [String.String (Ascii.Ascii true true true false false true true false)
+           (String.String (Ascii.Ascii false true false false true true true false)
+              (String.String (Ascii.Ascii true false false true false true true false)
+                 (String.String (Ascii.Ascii false false true false false true true false) String.EmptyString)));
+         String.String (Ascii.Ascii true true true false false true true false)
+           (String.String (Ascii.Ascii false true false false true true true false)
+              (String.String (Ascii.Ascii true false false true false true true false)
+                 (String.String (Ascii.Ascii false false true false false true true false)
+                    (String.String (Ascii.Ascii true true false false true true true false)
+                       (String.String (Ascii.Ascii true false false true false true true false)
+                          (String.String (Ascii.Ascii false true false true true true true false)
+                             (String.String (Ascii.Ascii true false true false false true true false)
+                                String.EmptyString)))))));
+         String.String (Ascii.Ascii true true true true false true true false)
+           (String.String (Ascii.Ascii false true false false true true true false)
+              (String.String (Ascii.Ascii true false false true false true true false)
+                 (String.String (Ascii.Ascii true true true false false true true false)
+                    (String.String (Ascii.Ascii true false false true false true true false)
+                       (String.String (Ascii.Ascii false true true true false true true false) String.EmptyString)))));
+         String.String (Ascii.Ascii true true false false true true true false)
+           (String.String (Ascii.Ascii true true true true false true true false)
+              (String.String (Ascii.Ascii true false true false true true true false)
+                 (String.String (Ascii.Ascii false true false false true true true false)
+                    (String.String (Ascii.Ascii true true false false false true true false)
+                       (String.String (Ascii.Ascii true false true false false true true false) String.EmptyString)))));
+         String.String (Ascii.Ascii true true true false false true true false)
+           (String.String (Ascii.Ascii false true false false true true true false)
+              (String.String (Ascii.Ascii true false false false false true true false)
+                 (String.String (Ascii.Ascii false false true false false true true false)
+                    (String.String (Ascii.Ascii true false false true false true true false)
+                       (String.String (Ascii.Ascii true false true false false true true false)
+                          (String.String (Ascii.Ascii false true true true false true true false)
+                             (String.String (Ascii.Ascii false false true false true true true false)
+                                String.EmptyString)))))));
+         String.String (Ascii.Ascii false true true false true true true false)
+           (String.String (Ascii.Ascii false true false true true true true false)
+              (String.String (Ascii.Ascii true false true false false true true false)
+                 (String.String (Ascii.Ascii false true false false true true true false)
+                    (String.String (Ascii.Ascii true true true true false true true false) String.EmptyString))))]) /\
+       ApiGen.solve_2d_result_single =
+       [(String.String (Ascii.Ascii true true true false false true true false)
+           (String.String (Ascii.Ascii false true false false true true true false)
+              (String.String (Ascii.Ascii true false false true false true true false)
+                 (String.String (Ascii.Ascii false false true false false true true false) String.EmptyString))),
+         String.String (Ascii.Ascii false false true false true true true false)
+           (String.String (Ascii.Ascii false false true false true true true false) String.EmptyString));
+        (String.String (Ascii.Ascii true true true false false true true false)
+           (String.String (Ascii.Ascii false true false false true true true false)
+              (String.String (Ascii.Ascii true false false true false true true false)
+                 (String.String (Ascii.Ascii false false true false false true true false)
+                    (String.String (Ascii.Ascii true true false false true true true false)
+                       (String.String (Ascii.Ascii true false false true false true true false)
+                          (String.String (Ascii.Ascii false true false true true true true false)
+                             (String.String (Ascii.Ascii true false true false false true true false)
+                                String.EmptyString))))))),
+         String.String (Ascii.Ascii true true false false true true true false)
+           (String.String (Ascii.Ascii true false true false false true true false)
+              (String.String (Ascii.Ascii false false true true false true true false)
+                 (String.String (Ascii.Ascii false true true false false true true false)
+                    (String.String (Ascii.Ascii false true true true false true false false)
+                       (String.String (Ascii.Ascii true true true true true false true false)
+                          (String.String (Ascii.Ascii true true true false false true true false)
+                             (String.String (Ascii.Ascii false true false false true true true false)
+                                (String.String (Ascii.Ascii true false false true false true true false)
+                                   (String.String (Ascii.Ascii false false true false false true true false)
+                                      (String.String (Ascii.Ascii true true false false true true true false)
+                                         (String.String (Ascii.Ascii true false false true false true true false)
+                                            (String.String (Ascii.Ascii false true false true true true true false)
+                                               (String.String (Ascii.Ascii true false true false false true true false)
+                                                  String.EmptyString))))))))))))));
+        (String.String (Ascii.Ascii true true true true false true true false)
+           (String.String (Ascii.Ascii false true false false true true true false)
+              (String.String (Ascii.Ascii true false false true false true true false)
+                 (String.String (Ascii.Ascii true true true false false true true false)
+                    (String.String (Ascii.Ascii true false false true false true true false)
+                       (String.String (Ascii.Ascii false true true true false true true false) String.EmptyString))))),
+         String.String (Ascii.Ascii true true false false true true true false)
+           (String.String (Ascii.Ascii true false true false false true true false)
+              (String.String (Ascii.Ascii false false true true false true true false)
+                 (String.String (Ascii.Ascii false true true false false true true false)
+                    (String.String (Ascii.Ascii false true true true false true false false)
+                       (String.String (Ascii.Ascii true true true true true false true false)
+                          (String.String (Ascii.Ascii true true true true false true true false)
+                             (String.String (Ascii.Ascii false true false false true true true false)
+                                (String.String (Ascii.Ascii true false false true false true true false)
+                                   (String.String (Ascii.Ascii true true true false false true true false)
+                                      (String.String (Ascii.Ascii true false false true false true true false)
+                                         (String.String (Ascii.Ascii false true true true false true true false)
+                                            String.EmptyString))))))))))));
+        (String.String (Ascii.Ascii true true false false true true true false)
+           (String.String (Ascii.Ascii true true true true false true true false)
+              (String.String (Ascii.Ascii true false true false true true true false)
+                 (String.String (Ascii.Ascii false true false false true true true false)
+                    (String.String (Ascii.Ascii true true false false false true true false)
+                       (String.String (Ascii.Ascii true false true false false true true false) String.EmptyString))))),
+         String.String (Ascii.Ascii true true false false true true true false)
+           (String.String (Ascii.Ascii true true true true false true true false)
+              (String.String (Ascii.Ascii true false true false true true true false)
+                 (String.String (Ascii.Ascii false true false false true true true false)
+                    (String.String (Ascii.Ascii true true false false false true true false)
+                       (String.String (Ascii.Ascii true false true false false true true false)
+                          (String.String (Ascii.Ascii true true false false true true true false) String.EmptyString)))))));
+        (String.String (Ascii.Ascii true true true false false true true false)
+           (String.String (Ascii.Ascii false true false false true true true false)
+              (String.String (Ascii.Ascii true false false false false true true false)
+                 (String.String (Ascii.Ascii false false true false false true true false)
+                    (String.String (Ascii.Ascii true false false true false true true false)
+                       (String.String (Ascii.Ascii true false true false false true true false)
+                          (String.String (Ascii.Ascii false true true true false true true false)
+                             (String.String (Ascii.Ascii false false true false true true true false)
+                                String.EmptyString))))))),
+         String.String (Ascii.Ascii false false true false true true true false)
+           (String.String (Ascii.Ascii false false true false true true true false)
+              (String.String (Ascii.Ascii true true true false false true true false)
+                 (String.String (Ascii.Ascii false true false false true true true false)
+                    (String.String (Ascii.Ascii true false false false false true true false)
+                       (String.String (Ascii.Ascii false false true false false true true false)
+                          (String.String (Ascii.Ascii false false false false false true false false)
+                             (String.String (Ascii.Ascii true false false true false true true false)
+                                (String.String (Ascii.Ascii false true true false false true true false)
+                                   (String.String (Ascii.Ascii false false false false false true false false)
+                                      (String.String (Ascii.Ascii false true false false true true true false)
+                                         (String.String (Ascii.Ascii true false true false false true true false)
+                                            (String.String (Ascii.Ascii false false true false true true true false)
+                                               (String.String (Ascii.Ascii true false true false true true true false)
+                                                  (String.String
+                                                     (Ascii.Ascii false true false false true true true false)
+                                                     (String.String
+                                                        (Ascii.Ascii false true true true false true true false)
+                                                        (String.String
+                                                           (Ascii.Ascii true true true true true false true false)
+                                                           (String.String
+                                                              (Ascii.Ascii true true true false false true true false)
+                                                              (String.String
+                                                                 (Ascii.Ascii false true false false true true true
+                                                                    false)
+                                                                 (String.String
+                                                                    (Ascii.Ascii true false false false false true true
+                                                                       false)
+                                                                    (String.String
+                                                                       (Ascii.Ascii false false true false false true
+                                                                          true false)
+                                                                       (String.String
+                                                                          (Ascii.Ascii true false false true false true
+                                                                             true false)
+                                                                          (String.String
+                                                                             (Ascii.Ascii true false true false false
+                                                                                true true false)
+                                                                             (String.String
+                                                                                (Ascii.Ascii false true true true false
+                                                                                   true true false)
+                                                                                (String.String
+                                                                                   (Ascii.Ascii false false true false
+                                                                                      true true true false)
+                                                                                   (String.String
+                                                                                      (Ascii.Ascii false false false
+                                                                                         false false true false false)
+                                                                                      (String.String
+                                                                                         (Ascii.Ascii true false true
+                                                                                          false false true true false)
+                                                                                         (String.String
+                                                                                          (Ascii.Ascii false false true
+                                                                                          true false true true false)
+                                                                                          (String.String
+                                                                                          (Ascii.Ascii true true false
+                                                                                          false true true true false)
+                                                                                          (String.String
+                                                                                          (Ascii.Ascii true false true
+                                                                                          false false true true false)
+                                                                                          (String.String
+                                                                                          (Ascii.Ascii false false
+                                                                                          false false false true false
+                                                                                          false)
+                                                                                          (String.String
+                                                                                          (Ascii.Ascii false true true
+                                                                                          true false false true false)
+                                                                                          (String.String
+                                                                                          (Ascii.Ascii true true true
+                                                                                          true false true true false)
+                                                                                          (String.String
+                                                                                          (Ascii.Ascii false true true
+                                                                                          true false true true false)
+                                                                                          (String.String
+                                                                                          (Ascii.Ascii true false true
+                                                                                          false false true true false)
+                                                                                          String.EmptyString)))))))))))))))))))))))))))))))))));
+        (String.String (Ascii.Ascii false true true false true true true false)
+           (String.String (Ascii.Ascii false true false true true true true false)
+              (String.String (Ascii.Ascii true false true false false true true false)
+                 (String.String (Ascii.Ascii false true false false true true true false)
+                    (String.String (Ascii.Ascii true true true true false true true false) String.EmptyString)))),
+         String.String (Ascii.Ascii false true true false true true true false)
+           (String.String (Ascii.Ascii false true false true true true true false)
+              (String.String (Ascii.Ascii true false true false false true true false)
+                 (String.String (Ascii.Ascii false true false false true true true false)
+                    (String.String (Ascii.Ascii true true true true false true true false) String.EmptyString)))))] /\
+       ApiGen.solve_2d_result_multi =
+       [(String.String (Ascii.Ascii true true true false false true true false)
+           (String.String (Ascii.Ascii false true false false true true true false)
+              (String.String (Ascii.Ascii true false false true false true true false)
+                 (String.String (Ascii.Ascii false false true false false true true false) String.EmptyString))),
+         String.String (Ascii.Ascii false false true false true true true false)
+           (String.String (Ascii.Ascii false false true false true true true false)
+              (String.String (Ascii.Ascii true true false true true false true false)
+                 (String.String (Ascii.Ascii true false false true false true true false)
+                    (String.String (Ascii.Ascii true false true true true false true false) String.EmptyString)))));
+        (String.String (Ascii.Ascii true true true false false true true false)
+           (String.String (Ascii.Ascii false true false false true true true false)
+              (String.String (Ascii.Ascii true false false true false true true false)
+                 (String.String (Ascii.Ascii false false true false false true true false)
+                    (String.String (Ascii.Ascii true true false false true true true false)
+                       (String.String (Ascii.Ascii true false false true false true true false)
+                          (String.String (Ascii.Ascii false true false true true true true false)
+                             (String.String (Ascii.Ascii true false true false false true true false)
+                                String.EmptyString))))))),
+         String.String (Ascii.Ascii true true false false true true true false)
+           (String.String (Ascii.Ascii true false true false false true true false)
+              (String.String (Ascii.Ascii false false true true false true true false)
+                 (String.String (Ascii.Ascii false true true false false true true false)
+                    (String.String (Ascii.Ascii false true true true false true false false)
+                       (String.String (Ascii.Ascii true true true true true false true false)
+                          (String.String (Ascii.Ascii true true true false false true true false)
+                             (String.String (Ascii.Ascii false true false false true true true false)
+                                (String.String (Ascii.Ascii true false false true false true true false)
+                                   (String.String (Ascii.Ascii false false true false false true true false)
+                                      (String.String (Ascii.Ascii true true false false true true true false)
+                                         (String.String (Ascii.Ascii true false false true false true true false)
+                                            (String.String (Ascii.Ascii false true false true true true true false)
+                                               (String.String (Ascii.Ascii true false true false false true true false)
+                                                  String.EmptyString))))))))))))));
+        (String.String (Ascii.Ascii true true true true false true true false)
+           (String.String (Ascii.Ascii false true false false true true true false)
+              (String.String (Ascii.Ascii true false false true false true true false)
+                 (String.String (Ascii.Ascii true true true false false true true false)
+                    (String.String (Ascii.Ascii true false false true false true true false)
+                       (String.String (Ascii.Ascii false true true true false true true false) String.EmptyString))))),
+         String.String (Ascii.Ascii true true false false true true true false)
+           (String.String (Ascii.Ascii true false true false false true true false)
+              (String.String (Ascii.Ascii false false true true false true true false)
+                 (String.String (Ascii.Ascii false true true false false true true false)
+                    (String.String (Ascii.Ascii false true true true false true false false)
+                       (String.String (Ascii.Ascii true true true true true false true false)
+                          (String.String (Ascii.Ascii true true true true false true true false)
+                             (String.String (Ascii.Ascii false true false false true true true false)
+                                (String.String (Ascii.Ascii true false false true false true true false)
+                                   (String.String (Ascii.Ascii true true true false false true true false)
+                                      (String.String (Ascii.Ascii true false false true false true true false)
+                                         (String.String (Ascii.Ascii false true true true false true true false)
+                                            String.EmptyString))))))))))));
+        (String.String (Ascii.Ascii true true false false true true true false)
+           (String.String (Ascii.Ascii true true true true false true true false)
+              (String.String (Ascii.Ascii true false true false true true true false)
+                 (String.String (Ascii.Ascii false true false false true true true false)
+                    (String.String (Ascii.Ascii true true false false false true true false)
+                       (String.String (Ascii.Ascii true false true false false true true false) String.EmptyString))))),
+         String.String (Ascii.Ascii true true false false true true true false)
+           (String.String (Ascii.Ascii true true true true false true true false)
+              (String.String (Ascii.Ascii true false true false true true true false)
+                 (String.String (Ascii.Ascii false true false false true true true false)
+                    (String.String (Ascii.Ascii true true false false false true true false)
+                       (String.String (Ascii.Ascii true false true false false true true false)
+                          (String.String (Ascii.Ascii true true false false true true true false)
+                             (String.String (Ascii.Ascii true true false true true false true false)
+                                (String.String (Ascii.Ascii true false false true false true true false)
+                                   (String.String (Ascii.Ascii true false true true true false true false)
+                                      String.EmptyString))))))))));
+        (String.String (Ascii.Ascii true true true false false true true false)
+           (String.String (Ascii.Ascii false true false false true true true false)
+              (String.String (Ascii.Ascii true false false false false true true false)
+                 (String.String (Ascii.Ascii false false true false false true true false)
+                    (String.String (Ascii.Ascii true false false true false true true false)
+                       (String.String (Ascii.Ascii true false true false false true true false)
+                          (String.String (Ascii.Ascii false true true true false true true false)
+                             (String.String (Ascii.Ascii false false true false true true true false)
+                                String.EmptyString))))))),
+         String.String (Ascii.Ascii false false true false true true true false)
+           (String.String (Ascii.Ascii false false true false true true true false)
+              (String.String (Ascii.Ascii true true true false false true true false)
+                 (String.String (Ascii.Ascii false true false false true true true false)
+                    (String.String (Ascii.Ascii true false false false false true true false)
+                       (String.String (Ascii.Ascii false false true false false true true false)
+                          (String.String (Ascii.Ascii true true false true true false true false)
+                             (String.String (Ascii.Ascii true false false true false true true false)
+                                (String.String (Ascii.Ascii true false true true true false true false)
+                                   (String.String (Ascii.Ascii false false false false false true false false)
+                                      (String.String (Ascii.Ascii true false false true false true true false)
+                                         (String.String (Ascii.Ascii false true true false false true true false)
+                                            (String.String (Ascii.Ascii false false false false false true false false)
+                                               (String.String (Ascii.Ascii false true false false true true true false)
+                                                  (String.String
+                                                     (Ascii.Ascii true false true false false true true false)
+                                                     (String.String
+                                                        (Ascii.Ascii false false true false true true true false)
+                                                        (String.String
+                                                           (Ascii.Ascii true false true false true true true false)
+                                                           (String.String
+                                                              (Ascii.Ascii false true false false true true true false)
+                                                              (String.String
+                                                                 (Ascii.Ascii false true true true false true true
+                                                                    false)
+                                                                 (String.String
+                                                                    (Ascii.Ascii true true true true true false true
+                                                                       false)
+                                                                    (String.String
+                                                                       (Ascii.Ascii true true true false false true
+                                                                          true false)
+                                                                       (String.String
+                                                                          (Ascii.Ascii false true false false true true
+                                                                             true false)
+                                                                          (String.String
+                                                                             (Ascii.Ascii true false false false false
+                                                                                true true false)
+                                                                             (String.String
+                                                                                (Ascii.Ascii false false true false
+                                                                                   false true true false)
+                                                                                (String.String
+                                                                                   (Ascii.Ascii true false false true
+                                                                                      false true true false)
+                                                                                   (String.String
+                                                                                      (Ascii.Ascii true false true
+                                                                                         false false true true false)
+                                                                                      (String.String
+                                                                                         (Ascii.Ascii false true true
+                                                                                          true false true true false)
+                                                                                         (String.String
+                                                                                          (Ascii.Ascii false false true
+                                                                                          false true true true false)
+                                                                                          (String.String
+                                                                                          (Ascii.Ascii false false
+                                                                                          false false false true false
+                                                                                          false)
+                                                                                          (String.String
+                                                                                          (Ascii.Ascii true false true
+                                                                                          false false true true false)
+                                                                                          (String.String
+                                                                                          (Ascii.Ascii false false true
+                                                                                          true false true true false)
+                                                                                          (String.String
+                                                                                          (Ascii.Ascii true true false
+                                                                                          false true true true false)
+                                                                                          (String.String
+                                                                                          (Ascii.Ascii true false true
+                                                                                          false false true true false)
+                                                                                          (String.String
+                                                                                          (Ascii.Ascii false false
+                                                                                          false false false true false
+                                                                                          false)
+                                                                                          (String.String
+                                                                                          (Ascii.Ascii false true true
+                                                                                          true false false true false)
+                                                                                          (String.String
+                                                                                          (Ascii.Ascii true true true
+                                                                                          true false true true false)
+                                                                                          (String.String
+                                                                                          (Ascii.Ascii false true true
+                                                                                          true false true true false)
+                                                                                          (String.String
+                                                                                          (Ascii.Ascii true false true
+                                                                                          false false true true false)
+                                                                                          String.EmptyString))))))))))))))))))))))))))))))))))))));
+        (String.String (Ascii.Ascii false true true false true true true false)
+           (String.String (Ascii.Ascii false true false true true true true false)
+              (String.String (Ascii.Ascii true false true false false true true false)
+                 (String.String (Ascii.Ascii false true false false true true true false)
+                    (String.String (Ascii.Ascii true true true true false true true false) String.EmptyString)))),
+         String.String (Ascii.Ascii false true true false true true true false)
+           (String.String (Ascii.Ascii false true false true true true true false)
+              (String.String (Ascii.Ascii true false true false false true true false)
+                 (String.String (Ascii.Ascii false true false false true true true false)
+                    (String.String (Ascii.Ascii true true true true false true true false)
+                       (String.String (Ascii.Ascii true true false true true false true false)
+                          (String.String (Ascii.Ascii true false false true false true true false)
+                             (String.String (Ascii.Ascii true false true true true false true false) String.EmptyString))))))))] /\
+       map fst ApiGen.solve_2d_result_single = snd ApiGen.solve_2d_result_ctor /\
+       map fst ApiGen.solve_2d_result_multi = snd ApiGen.solve_2d_result_ctor.
+Proof. exact @ApiGenEq.gen_solve_2d_result. Qed.
+
+(* 3D *)
+Theorem C03_solve_result_wiring_3d :
+  ApiGen.solve_3d_targets =
+       [String.String (Ascii.Ascii false false true false true true true false)
+          (String.String (Ascii.Ascii false false true false true true true false) String.EmptyString);
+        String.String (Ascii.Ascii false false true false true true true false)
+          (String.String (Ascii.Ascii false false true false true true true false)
+             (String.String (Ascii.Ascii true true true false false true true false)
+                (String.String (Ascii.Ascii false true false false true true true false)
+                   (String.String (Ascii.Ascii true false false false false true true false)
+                      (String.String (Ascii.Ascii false false true false false true true false) String.EmptyString)))));
+        String.String (Ascii.Ascii false true true false true true true false)
+          (String.String (Ascii.Ascii false true false true true true true false)
+             (String.String (Ascii.Ascii true false true false false true true false)
+                (String.String (Ascii.Ascii false true false false true true true false)
+                   (String.String (Ascii.Ascii true true true true false true true false) String.EmptyString))))] /\
+       ApiGen.solve_3d_result_ctor =
+       (String.String (Ascii.Ascii false false true false true false true false)
+          (String.String (Ascii.Ascii false true false false true true true false)
+             (String.String (Ascii.Ascii true false false false false true true false)
+                (String.String (Ascii.Ascii false true true false true true true false)
+                   (String.String (Ascii.Ascii true false true false false true true false)
+                      (String.String (Ascii.Ascii false false true true false true true false)
+                         (String.String (Ascii.Ascii false false true false true true true false)
+                            (String.String (Ascii.Ascii true false false true false true true false)
+                               (String.String (Ascii.Ascii true false true true false true true false)
+                                  (String.String (Ascii.Ascii true false true false false true true false)
+                                     (String.String (Ascii.Ascii true true true false false false true false)
+                                        (String.String (Ascii.Ascii false true false false true true true false)
+                                           (String.String (Ascii.Ascii true false false true false true true false)
+                                              (String.String (Ascii.Ascii false false true false false true true false)
+                                                 (String.String
+                                                    (Ascii.Ascii true true false false true true false false)
+                                                    (String.String
+                                                       (Ascii.Ascii false false true false false false true false)
+                                                       String.EmptyString))))))))))))))),
+        [String.String (Ascii.Ascii true true true false false true true false)
+           (String.String (Ascii.Ascii false true false false true true true false)
+              (String.String (Ascii.Ascii true false false true false true true false)
+                 (String.String (Ascii.Ascii false false true false false true true false) String.EmptyString)));
+         String.String (Ascii.Ascii true true true false false true true false)
+           (String.String (Ascii.Ascii false true false false true true true false)
+              (String.String (Ascii.Ascii true false false true false true true false)
+                 (String.String (Ascii.Ascii false false true false false true true false)
+                    (String.String (Ascii.Ascii true true false false true true true false)
+                       (String.String (Ascii.Ascii true false false true false true true false)
+                          (String.String (Ascii.Ascii false true false true true true true false)
+                             (String.String (Ascii.Ascii true false true false false true true false)
+                                String.EmptyString)))))));
+         String.String (Ascii.Ascii true true true true false true true false)
+           (String.String (Ascii.Ascii false true false false true true true false)
+              (String.String (Ascii.Ascii true false false true false true true false)
+                 (String.String (Ascii.Ascii true true true false false true true false)
+                    (String.String (Ascii.Ascii true false false true false true true false)
+                       (String.String (Ascii.Ascii false true true true false true true false) String.EmptyString)))));
+         String.String (Ascii.Ascii true true false false true true true false)
+           (String.String (Ascii.Ascii true true true true false true true false)
+              (String.String (Ascii.Ascii true false true false true true true false)
+                 (String.String (Ascii.Ascii false true false false true true true false)
+                    (String.String (Ascii.Ascii true true false false false true true false)
+                       (String.String (Ascii.Ascii true false true false false true true false) String.EmptyString)))));
+         String.String (Ascii.Ascii true true true false false true true false)
+           (String.String (Ascii.Ascii false true false false true true true false)
+              (String.String (Ascii.Ascii true false false false false true true false)
+                 (String.String (Ascii.Ascii false false true false false true true false)
+                    (String.String (Ascii.Ascii true false false true false true true false)
+                       (String.String (Ascii.Ascii true false true false false true true false)
+                          (String.String (Ascii.Ascii false true true true false true true false)
+                             (String.String (Ascii.Ascii false false true false true true true false)
+                                String.EmptyString)))))));
+         String.String (Ascii.Ascii false true true false true true true false)
+           (String.String (Ascii.Ascii false true false true true true true false)
+              (String.String (Ascii.Ascii true false true false false true true false)
+                 (String.String (Ascii.Ascii false true false false true true true false)
+                    (String.String (Ascii.Ascii true true true true false true true false) String.EmptyString))))]) /\
+       ApiGen.solve_3d_result_single =
+       [(String.String (Ascii.Ascii true true true false false true true false)
+           (String.String (Ascii.Ascii false true false false true true true false)
+              (String.String (Ascii.Ascii true false false true false true true false)
+                 (String.String (Ascii.Ascii false false true false false true true false) String.EmptyString))),
+         String.String (Ascii.Ascii false false true false true true true false)
+           (String.String (Ascii.Ascii false false true false true true true false) String.EmptyString));
+        (String.String (Ascii.Ascii true true true false false true true false)
+           (String.String (Ascii.Ascii false true false false true true true false)
+              (String.String (Ascii.Ascii true false false true false true true false)
+                 (String.String (Ascii.Ascii false false true false false true true false)
+                    (String.String (Ascii.Ascii true true false false true true true false)
+                       (String.String (Ascii.Ascii true false false true false true true false)
+                          (String.String (Ascii.Ascii false true false true true true true false)
+                             (String.String (Ascii.Ascii true false true false false true true false)
+                                String.EmptyString))))))),
+         String.String (Ascii.Ascii true true false false true true true false)
+           (String.String (Ascii.Ascii true false true false false true true false)
+              (String.String (Ascii.Ascii false false true true false true true false)
+                 (String.String (Ascii.Ascii false true true false false true true false)
+                    (String.String (Ascii.Ascii false true true true false true false false)
+                       (String.String (Ascii.Ascii true true true true true false true false)
+                          (String.String (Ascii.Ascii true true true false false true true false)
+                             (String.String (Ascii.Ascii false true false false true true true false)
+                                (String.String (Ascii.Ascii true false false true false true true false)
+                                   (String.String (Ascii.Ascii false false true false false true true false)
+                                      (String.String (Ascii.Ascii true true false false true true true false)
+                                         (String.String (Ascii.Ascii true false false true false true true false)
+                                            (String.String (Ascii.Ascii false true false true true true true false)
+                                               (String.String (Ascii.Ascii true false true false false true true false)
+                                                  String.EmptyString))))))))))))));
+        (String.String (Ascii.Ascii true true true true false true true false)
+           (String.String (Ascii.Ascii false true false false true true true false)
+              (String.String (Ascii.Ascii true false false true false true true false)
+                 (String.String (Ascii.Ascii true true true false false true true false)
+                    (String.String (Ascii.Ascii true false false true false true true false)
+                       (String.String (Ascii.Ascii false true true true false true true false) String.EmptyString))))),
+         String.String (Ascii.Ascii true true false false true true true false)
+           (String.String (Ascii.Ascii true false true false false true true false)
+              (String.String (Ascii.Ascii false false true true false true true false)
+                 (String.String (Ascii.Ascii false true true false false true true false)
+                    (String.String (Ascii.Ascii false true true true false true false false)
+                       (String.String (Ascii.Ascii true true true true true false true false)
+                          (String.String (Ascii.Ascii true true true true false true true false)
+                             (String.String (Ascii.Ascii false true false false true true true false)
+                                (String.String (Ascii.Ascii true false false true false true true false)
+                                   (String.String (Ascii.Ascii true true true false false true true false)
+                                      (String.String (Ascii.Ascii true false false true false true true false)
+                                         (String.String (Ascii.Ascii false true true true false true true false)
+                                            String.EmptyString))))))))))));
+        (String.String (Ascii.Ascii true true false false true true true false)
+           (String.String (Ascii.Ascii true true true true false true true false)
+              (String.String (Ascii.Ascii true false true false true true true false)
+                 (String.String (Ascii.Ascii false true false false true true true false)
+                    (String.String (Ascii.Ascii true true false false false true true false)
+                       (String.String (Ascii.Ascii true false true false false true true false) String.EmptyString))))),
+         String.String (Ascii.Ascii true true false false true true true false)
+           (String.String (Ascii.Ascii true true true true false true true false)
+              (String.String (Ascii.Ascii true false true false true true true false)
+                 (String.String (Ascii.Ascii false true false false true true true false)
+                    (String.String (Ascii.Ascii true true false false false true true false)
+                       (String.String (Ascii.Ascii true false true false false true true false)
+                          (String.String (Ascii.Ascii true true false false true true true false) String.EmptyString)))))));
+        (String.String (Ascii.Ascii true true true false false true true false)
+           (String.String (Ascii.Ascii false true false false true true true false)
+              (String.String (Ascii.Ascii true false false false false true true false)
+                 (String.String (Ascii.Ascii false false true false false true true false)
+                    (String.String (Ascii.Ascii true false false true false true true false)
+                       (String.String (Ascii.Ascii true false true false false true true false)
+                          (String.String (Ascii.Ascii false true true true false true true false)
+                             (String.String (Ascii.Ascii false false true false true true true false)
+                                String.EmptyString))))))),
+         String.String (Ascii.Ascii false false true false true true true false)
+           (String.String (Ascii.Ascii false false true false true true true false)
+              (String.String (Ascii.Ascii true true true false false true true false)
+                 (String.String (Ascii.Ascii false true false false true true true false)
+                    (String.String (Ascii.Ascii true false false false false true true false)
+                       (String.String (Ascii.Ascii false false true false false true true false)
+                          (String.String (Ascii.Ascii false false false false false true false false)
+                             (String.String (Ascii.Ascii true false false true false true true false)
+                                (String.String (Ascii.Ascii false true true false false true true false)
+                                   (String.String (Ascii.Ascii false false false false false true false false)
+                                      (String.String (Ascii.Ascii false true false false true true true false)
+                                         (String.String (Ascii.Ascii true false true false false true true false)
+                                            (String.String (Ascii.Ascii false false true false true true true false)
+                                               (String.String (Ascii.Ascii true false true false true true true false)
+                                                  (String.String
+                                                     (Ascii.Ascii false true false false true true true false)
+                                                     (String.String
+                                                        (Ascii.Ascii false true true true false true true false)
+                                                        (String.String
+                                                           (Ascii.Ascii true true true true true false true false)
+                                                           (String.String
+                                                              (Ascii.Ascii true true true false false true true false)
+                                                              (String.String
+                                                                 (Ascii.Ascii false true false false true true true
+                                                                    false)
+                                                                 (String.String
+                                                                    (Ascii.Ascii true false false false false true true
+                                                                       false)
+                                                                    (String.String
+                                                                       (Ascii.Ascii false false true false false true
+                                                                          true false)
+                                                                       (String.String
+                                                                          (Ascii.Ascii true false false true false true
+                                                                             true false)
+                                                                          (String.String
+                                                                             (Ascii.Ascii true false true false false
+                                                                                true true false)
+                                                                             (String.String
+                                                                                (Ascii.Ascii false true true true false
+                                                                                   true true false)
+                                                                                (String.String
+                                                                                   (Ascii.Ascii false false true false
+                                                                                      true true true false)
+                                                                                   (String.String
+                                                                                      (Ascii.Ascii false false false
+                                                                                         false false true false false)
+                                                                                      (String.String
+                                                                                         (Ascii.Ascii true false true
+                                                                                          false false true true false)
+                                                                                         (String.String
+                                                                                          (Ascii.Ascii false false true
+                                                                                          true false true true false)
+                                                                                          (String.String
+                                                                                          (Ascii.Ascii true true false
+                                                                                          false true true true false)
+                                                                                          (String.String
+                                                                                          (Ascii.Ascii true false true
+                                                                                          false false true true false)
+                                                                                          (String.String
+                                                                                          (Ascii.Ascii false false
+                                                                                          false false false true false
+                                                                                          false)
+                                                                                          (String.String
+                                                                                          (Ascii.Ascii false true true
+                                                                                          true false false true false)
+                                                                                          (String.String
+                                                                                          (Ascii.Ascii true true true
+                                                                                          true false true true false)
+                                                                                          (String.String
+                                                                                          (Ascii.Ascii false true true
+                                                                                          true false true true false)
+                                                                                          (String.String
+                                                                                          (Ascii.Ascii true false true
+                                                                                          false false true true false)
+                                                                                          String.EmptyString)))))))))))))))))))))))))))))))))));
+        (String.String (Ascii.Ascii false true true false true true true false)
+           (String.String (Ascii.Ascii false true false true true true true false)
+              (String.String (Ascii.Ascii true false true false false true true false)
+                 (String.String (Ascii.Ascii false true false false true true true false)
+                    (String.String (Ascii.Ascii true true true true false true true false) String.EmptyString)))),
+         String.String (Ascii.Ascii false true true false true true true false)
+           (String.String (Ascii.Ascii false true false true true true true false)
+              (String.String (Ascii.Ascii true false true false false true true false)
+                 (String.String (Ascii.Ascii false true false false true true true false)
+                    (String.String (Ascii.Ascii true true true true false true true false) String.EmptyString)))))] /\
+       ApiGen.solve_3d_result_multi =
+       [(String.String (Ascii.Ascii true true true false false true true false)
+           (String.String (Ascii.Ascii false true false false true true true false)
+              (String.String (Ascii.Ascii true false false true false true true false)
+                 (String.String (Ascii.Ascii false false true false false true true false) String.EmptyString))),
+         String.String (Ascii.Ascii false false true false true true true false)
+           (String.String (Ascii.Ascii false false true false true true true false)
+              (String.String (Ascii.Ascii true true false true true false true false)
+                 (String.String (Ascii.Ascii true false false true false true true false)
+                    (String.String (Ascii.Ascii true false true true true false true false) String.EmptyString)))));
+        (String.String (Ascii.Ascii true true true false false true true false)
+           (String.String (Ascii.Ascii false true false false true true true false)
+              (String.String (Ascii.Ascii true false false true false true true false)
+                 (String.String (Ascii.Ascii false false true false false true true false)
+                    (String.String (Ascii.Ascii true true false false true true true false)
+                       (String.String (Ascii.Ascii true false false true false true true false)
+                          (String.String (Ascii.Ascii false true false true true true true false)
+                             (String.String (Ascii.Ascii true false true false false true true false)
+                                String.EmptyString))))))),
+         String.String (Ascii.Ascii true true false false true true true false)
+           (String.String (Ascii.Ascii true false true false false true true false)
+              (String.String (Ascii.Ascii false false true true false true true false)
+                 (String.String (Ascii.Ascii false true true false false true true false)
+                    (String.String (Ascii.Ascii false true true true false true false false)
+                       (String.String (Ascii.Ascii true true true true true false true false)
+                          (String.String (Ascii.Ascii true true true false false true true false)
+                             (String.String (Ascii.Ascii false true false false true true true false)
+                                (String.String (Ascii.Ascii true false false true false true true false)
+                                   (String.String (Ascii.Ascii false false true false false true true false)
+                                      (String.String (Ascii.Ascii true true false false true true true false)
+                                         (String.String (Ascii.Ascii true false false true false true true false)
+                                            (String.String (Ascii.Ascii false true false true true true true false)
+                                               (String.String (Ascii.Ascii true false true false false true true false)
+                                                  String.EmptyString))))))))))))));
+        (String.String (Ascii.Ascii true true true true false true true false)
+           (String.String (Ascii.Ascii false true false false true true true false)
+              (String.String (Ascii.Ascii true false false true false true true false)
+                 (String.String (Ascii.Ascii true true true false false true true false)
+                    (String.String (Ascii.Ascii true false false true false true true false)
+                       (String.String (Ascii.Ascii false true true true false true true false) String.EmptyString))))),
+         String.String (Ascii.Ascii true true false false true true true false)
+           (String.String (Ascii.Ascii true false true false false true true false)
+              (String.String (Ascii.Ascii false false true true false true true false)
+                 (String.String (Ascii.Ascii false true true false false true true false)
+                    (String.String (Ascii.Ascii false true true true false true false false)
+                       (String.String (Ascii.Ascii true true true true true false true false)
+                          (String.String (Ascii.Ascii true true true true false true true false)
+                             (String.String (Ascii.Ascii false true false false true true true false)
+                                (String.String (Ascii.Ascii true false false true false true true false)
+                                   (String.String (Ascii.Ascii true true true false false true true false)
+                                      (String.String (Ascii.Ascii true false false true false true true false)
+                                         (String.String (Ascii.Ascii false true true true false true true false)
+                                            String.EmptyString))))))))))));
+        (String.String (Ascii.Ascii true true false false true true true false)
+           (String.String (Ascii.Ascii true true true true false true true false)
+              (String.String (Ascii.Ascii true false true false true true true false)
+                 (String.String (Ascii.Ascii false true false false true true true false)
+                    (String.String (Ascii.Ascii true true false false false true true false)
+                       (String.String (Ascii.Ascii true false true false false true true false) String.EmptyString))))),
+         String.String (Ascii.Ascii true true false false true true true false)
+           (String.String (Ascii.Ascii true true true true false true true false)
+              (String.String (Ascii.Ascii true false true false true true true false)
+                 (String.String (Ascii.Ascii false true false false true true true false)
+                    (String.String (Ascii.Ascii true true false false false true true false)
+                       (String.String (Ascii.Ascii true false true false false true true false)
+                          (String.String (Ascii.Ascii true true false false true true true false)
+                             (String.String (Ascii.Ascii true true false true true false true false)
+                                (String.String (Ascii.Ascii true false false true false true true false)
+                                   (String.String (Ascii.Ascii true false true true true false true false)
+                                      String.EmptyString))))))))));
+        (String.String (Ascii.Ascii true true true false false true true false)
+           (String.String (Ascii.Ascii false true false false true true true false)
+              (String.String (Ascii.Ascii true false false false false true true false)
+                 (String.String (Ascii.Ascii false false true false false true true false)
+                    (String.String (Ascii.Ascii true false false true false true true false)
+                       (String.String (Ascii.Ascii true false true false false true true false)
+                          (String.String (Ascii.Ascii false true true true false true true false)
+                             (String.String (Ascii.Ascii false false true false true true true false)
+                                String.EmptyString))))))),
+         String.String (Ascii.Ascii false false true false true true true false)
+           (String.String (Ascii.Ascii false false true false true true true false)
+              (String.String (Ascii.Ascii true true true false false true true false)
+                 (String.String (Ascii.Ascii false true false false true true true false)
+                    (String.String (Ascii.Ascii true false false false false true true false)
+                       (String.String (Ascii.Ascii false false true false false true true false)
+                          (String.String (Ascii.Ascii true true false true true false true false)
+                             (String.String (Ascii.Ascii true false false true false true true false)
+                                (String.String (Ascii.Ascii true false true true true false true false)
+                                   (String.String (Ascii.Ascii false false false false false true false false)
+                                      (String.String (Ascii.Ascii true false false true false true true false)
+                                         (String.String (Ascii.Ascii false true true false false true true false)
+                                            (String.String (Ascii.Ascii false false false false false true false false)
+                                               (String.String (Ascii.Ascii false true false false true true true false)
+                                                  (String.String
+                                                     (Ascii.Ascii true false true false false true true false)
+                                                     (String.String
+                                                        (Ascii.Ascii false false true false true true true false)
+                                                        (String.String
+                                                           (Ascii.Ascii true false true false true true true false)
+                                                           (String.String
+                                                              (Ascii.Ascii false true false false true true true false)
+                                                              (String.String
+                                                                 (Ascii.Ascii false true true true false true true
+                                                                    false)
+                                                                 (String.String
+                                                                    (Ascii.Ascii true true true true true false true
+                                                                       false)
+                                                                    (String.String
+                                                                       (Ascii.Ascii true true true false false true
+                                                                          true false)
+                                                                       (String.String
+                                                                          (Ascii.Ascii false true false false true true
+                                                                             true false)
+                                                                          (String.String
+                                                                             (Ascii.Ascii true false false false false
+                                                                                true true false)
+                                                                             (String.String
+                                                                                (Ascii.Ascii false false true false
+                                                                                   false true true false)
+                                                                                (String.String
+                                                                                   (Ascii.Ascii true false false true
+                                                                                      false true true false)
+                                                                                   (String.String
+                                                                                      (Ascii.Ascii true false true
+                                                                                         false false true true false)
+                                                                                      (String.String
+                                                                                         (Ascii.Ascii false true true
+                                                                                          true false true true false)
+                                                                                         (String.String
+                                                                                          (Ascii.Ascii false false true
+                                                                                          false true true true false)
+                                                                                          (String.String
+                                                                                          (Ascii.Ascii false false
+                                                                                          false false false true false
+                                                                                          false)
+                                                                                          (String.String
+                                                                                          (Ascii.Ascii true false true
+                                                                                          false false true true false)
+                                                                                          (String.String
+                                                                                          (Ascii.Ascii false false true
+                                                                                          true false true true false)
+                                                                                          (String.String
+                                                                                          (Ascii.Ascii true true false
+                                                                                          false true true true false)
+                                                                                          (String.String
+                                                                                          (Ascii.Ascii true false true
+                                                                                          false false true true false)
+                                                                                          (String.String
+                                                                                          (Ascii.Ascii false false
+                                                                                          false false false true false
+                                                                                          false)
+                                                                                          (String.String
+                                                                                          (Ascii.Ascii false true true
+                                                                                          true false false true false)
+                                                                                          (String.String
+                                                                                          (Ascii.Ascii true true true
+                                                                                          true false true true false)
+                                                                                          (String.String
+                                                                                          (Ascii.Ascii false true true
+                                                                                          true false true true false)
+                                                                                          (String.String
+                                                                                          (Ascii.Ascii true false true
+                                                                                          false false true true false)
+                                                                                          String.EmptyString))))))))))))))))))))))))))))))))))))));
+        (String.String (Ascii.Ascii false true true false true true true false)
+           (String.String (Ascii.Ascii false true false true true true true false)
+              (String.String (Ascii.Ascii true false true false false true true false)
+                 (String.String (Ascii.Ascii false true false false true true true false)
+                    (String.String (Ascii.Ascii true true true true false true true false) String.EmptyString)))),
+         String.String (Ascii.Ascii false true true false true true true false)
+           (String.String (Ascii.Ascii false true false true true true true false)
+              (String.String (Ascii.Ascii true false true false false true true false)
+                 (String.String (Ascii.Ascii false true false false true true true false)
+                    (String.String (Ascii.Ascii true true true true false true true false)
+                       (String.String (Ascii.Ascii true true false true true false true false)
+                          (String.String (Ascii.Ascii true false false true false true true false)
+                             (String.String (Ascii.Ascii true false true true true false true false) String.EmptyString))))))))] /\
+       map fst ApiGen.solve_3d_result_single = snd ApiGen.solve_3d_result_ctor /\
+       map fst ApiGen.solve_3d_result_multi = snd ApiGen.solve_3d_result_ctor.
+Proof. exact @ApiGenEq.gen_solve_3d_result. Qed.
+
 Print Assumptions C03_solve2d_raises_iff_source_outside.
 Print Assumptions C03_solve3d_raises_iff_source_outside.
 Print Assumptions C03_initial_grid_shape_2d.
@@ -521,3 +1485,12 @@ Print Assumptions C03_solve3d_positive_off_node.
 Print Assumptions C03_solve3d_zero_dichotomy.
 Print Assumptions C03_solve3d_zero_only_at_source_partial.
 Print Assumptions C03_solve3d_zero_only_at_source_refuted.
+Print Assumptions C03_vzero_is_source_cell_slowness_2d.
+Print Assumptions C03_vzero_independent_of_options_2d.
+Print Assumptions C03_vzero_is_source_cell_slowness_3d.
+Print Assumptions C03_source_cell_contains_source_2d.
+Print Assumptions C03_source_cell_contains_source_3d.
+Print Assumptions C03_source_cell_contains_source_binary64_2d.
+Print Assumptions C03_source_cell_exact_membership_refuted_binary64.
+Print Assumptions C03_solve_result_wiring_2d.
+Print Assumptions C03_solve_result_wiring_3d.
